@@ -1,3 +1,3 @@
 From Coq Require Import Extraction ExtrOcamlBasic ZArith List.
 From C13 Require Import Model.
-Extraction "Model.ml" reports run w_workers w_peak.
+Extraction "Model.ml" reports run w_workers w_peak reports_ops run_ops.
